@@ -104,12 +104,12 @@ def body_etags(I, X, n=2):
     w = _val(X, "weak", n)
     for t in (s, w):
         X.assume(pnone_in(t, [34]))
-    X.assume(pnot(peq(s, w)))
+    # (the same tag may sit in both sets: both memberships survive)
     e = I.call(ETags, ([s], [w]))
     h = I.call(e.to_header, ())
     back = I.call(http.parse_etags, (h,))
-    ok = pand(I.call(back.contains, (s,)), I.call(back.contains_weak, (w,)), pnot(I.call(back.contains, (w,))),
-              pnot(back.star_tag))
+    ok = pand(I.call(back.is_strong, (s,)), I.call(back.is_weak, (w,)), I.call(back.contains_weak, (w,)),
+              peq(I.call(back.is_strong, (w,)), peq(s, w)), peq(I.call(back.is_weak, (s,)), peq(s, w)), pnot(back.star_tag))
     ok = pand(ok, len(list(I.call(back.__iter__, ()))) == 1)
     return ok, {"header": h}
 
